@@ -4,6 +4,7 @@ import (
 	"fmt"
 	"os"
 	"strings"
+	"time"
 
 	"macsmol/magog/engine"
 )
@@ -330,6 +331,55 @@ func init() {
 			default:
 				emit(randomPlacement(r), "synthetic")
 			}
+		}
+	}
+}
+
+func init() {
+	// verifh longgames <n>: long playouts fed through the text command, then go / perft in-process
+	commands["longgames"] = func(args []string) {
+		n := intArg(args, 0, 6)
+		r := newRng(seedFromEnv() + 1818)
+		for g := 0; g < n; g++ {
+			gm := playout(r, "startpos", 300+r.intn(400))
+			cmd := "position startpos moves " + strings.Join(gm.moves, " ")
+			status := "ok"
+			exited := make(chan struct{}, 4)
+			oc := startCollect()
+			func() {
+				defer func() {
+					if x := recover(); x != nil {
+						status = fmt.Sprintf("PANIC %v", x)
+					}
+				}()
+				engine.VerifResetSession()
+				engine.VerifSyncHook = func(point, a, b int) {
+					if point == engine.VsAfterBestmove {
+						exited <- struct{}{}
+					}
+				}
+				engine.ParseInputLine(cmd)
+				engine.ParseInputLine("perft 2")
+				engine.ParseInputLine("go depth 3")
+				select {
+				case <-exited:
+				case <-time.After(30 * time.Second):
+					status = "no bestmove"
+				}
+			}()
+			time.Sleep(3 * time.Millisecond)
+			engine.VerifSyncHook = nil
+			lines := oc.stop()
+			nb := 0
+			for _, l := range lines {
+				if strings.HasPrefix(l, "bestmove") {
+					nb++
+				}
+			}
+			if status == "ok" && nb != 1 {
+				status = fmt.Sprintf("%d bestmove lines", nb)
+			}
+			fmt.Fprintf(out, "%s\t%d\t%s\n", status, len(gm.moves), cmd)
 		}
 	}
 }
